@@ -54,12 +54,12 @@ pub fn hdr(arg: &str) -> String {
     let mut h = if nodate { Headers::new_nodate() } else { Headers::new() };
     for (op, idx, n) in &plan {
         match op {
-            0 => h.add(store[*idx].0.as_str(), store[*idx].1.as_slice()),
-            1 => h.replace(store[*idx].0.as_str(), store[*idx].1.as_slice()),
-            2 => h.remove(store[*idx].0.as_str()),
-            3 => h.set_content_length(*n),
-            4 => h.set_transfer_encoding_chunked(),
-            _ => h.set_connection_close(),
+            0 => { let _ = h.add(store[*idx].0.as_str(), store[*idx].1.as_slice()); }
+            1 => { let _ = h.replace(store[*idx].0.as_str(), store[*idx].1.as_slice()); }
+            2 => { let _ = h.remove(store[*idx].0.as_str()); }
+            3 => { let _ = h.set_content_length(*n); }
+            4 => { let _ = h.set_transfer_encoding_chunked(); }
+            _ => { let _ = h.set_connection_close(); }
         }
     }
     let mut f = String::new();
